@@ -6,7 +6,9 @@ cd /verif; mkdir -p /verif/target
 export CARGO_NET_OFFLINE=true
 [ -f shim/detrand.so ] || gcc -O2 -shared -fPIC -o shim/detrand.so shim/detrand.c || exit 2
 ( cd harness && cargo build --offline --profile verif 2>/verif/target/build.log >/dev/null ) || { mkdir -p /verif/target; tail -30 /verif/target/build.log; echo "MACHINERY: build failed"; exit 2; }
-export VERIF_HASH_SEED=${VERIF_SEED:-0}
+# Hash-map iteration order is an owned environment parameter, not a random choice: it is fixed (seed 0) so that
+# every run explores exactly the same executions; VERIF_SEED is recorded in the evidence but selects nothing.
+export VERIF_HASH_SEED=${VERIF_HASH_SEED:-0}
 export LD_PRELOAD=/verif/shim/detrand.so
 ulimit -s 8192
 if [ "$1" = "replay" ]; then exec /verif/target/verif/icverif replay "$2"; fi
